@@ -1821,11 +1821,11 @@ def run(ck: Check, replaying: bool = False):
                 'no longer check (regenerated rule data or model changed): '
                 + (ck.proof_failure or '')[-1500:], {'rules': [
                     r['name'] for r in rules]}, found_input=False)
-    structural_cases(ck, 32 * mult, have_driver)
+    structural_cases(ck, 40 * mult, have_driver)
     mark('structural')
     S.mgd_cases(ck, have_driver, thorough)
     mark('mgd')
-    S.block_pass_cases(ck, rules, 16 * mult, thorough)
+    S.block_pass_cases(ck, rules, 24 * mult, thorough)
     mark('blocks')
     if have_driver:
         scripted_tie(ck, 60 * mult)
